@@ -211,4 +211,111 @@ def exPipeStore : Store :=
 
 def exMapStore : Store := storeOfNodes exNm (staticProgram exMap exNm).2 exMapOracle
 
+/-- a pipeline mapped over an array literal whose body has a call with a RUN-TIME `disabled`
+control (an output of a sibling stage, different per fork), a consumer of the possibly-disabled
+outputs inside the fork, and consumers above that project through the merged outputs -/
+def exDis : Program :=
+  { structs := [("PAIR", [⟨"a", xInt⟩, ⟨"b", xStr⟩])]
+    callables :=
+      [ ("FLAG", .stage [⟨"x", xInt⟩] [⟨"off", ⟨"bool", 0, 0⟩⟩, ⟨"p", xPair⟩]),
+        ("WORK", .stage [⟨"x", xInt⟩, ⟨"p", xPair⟩] [⟨"y", xInt⟩, ⟨"q", xPair⟩]),
+        ("USE", .stage [⟨"ys", ⟨"int", 0, 1⟩⟩, ⟨"qa", ⟨"int", 0, 1⟩⟩] [⟨"r", xInt⟩]),
+        ("INNER", .pipeline [⟨"x", xInt⟩] [⟨"y", xInt⟩, ⟨"q", xPair⟩]
+          [ { id := "FLAG", callee := "FLAG", mapped := false, disabled := none,
+              binds := [⟨"x", false, .self "x" []⟩] },
+            { id := "WORK", callee := "WORK", mapped := false, disabled := some (false, .ref "FLAG" ["off"]),
+              binds := [⟨"x", false, .self "x" []⟩, ⟨"p", false, .ref "FLAG" ["p"]⟩] },
+            { id := "W2", callee := "WORK", mapped := false, disabled := none,
+              binds := [⟨"x", false, .ref "WORK" ["y"]⟩, ⟨"p", false, .ref "WORK" ["q"]⟩] } ]
+          [("y", .ref "W2" ["y"]), ("q", .ref "WORK" ["q"])]),
+        ("TOP", .pipeline [⟨"v", xInt⟩] [⟨"ys", ⟨"int", 0, 1⟩⟩, ⟨"qa", ⟨"int", 0, 1⟩⟩, ⟨"r", xInt⟩]
+          [ { id := "INNER", callee := "INNER", mapped := true, disabled := none,
+              binds := [⟨"x", true, .arr [.lit (.atom "1"), .self "v" [], .lit (.atom "3")]⟩] },
+            { id := "USE", callee := "USE", mapped := false, disabled := none,
+              binds := [⟨"ys", false, .ref "INNER" ["y"]⟩, ⟨"qa", false, .ref "INNER" ["q", "a"]⟩] } ]
+          [("ys", .ref "INNER" ["y"]), ("qa", .ref "INNER" ["q", "a"]), ("r", .ref "USE" ["r"])]) ]
+    top := { id := "TOP", callee := "TOP", mapped := false, disabled := none,
+             binds := [⟨"v", false, .lit (.atom "5")⟩] } }
+
+/-- fork 1 of INNER disables WORK -/
+def exDisOracle : Oracle := fun k =>
+  if k.path == ["TOP", "INNER", "FLAG"] then
+    match k.forks with
+    | [("INNER", .i n)] => some (.obj [("off", .atom (if n == 1 then "true" else "false")),
+        ("p", .obj [("a", .atom (toString (20 + n))), ("b", .atom "\"p\"")])])
+    | _ => none
+  else if k.path == ["TOP", "INNER", "WORK"] then
+    match k.forks with
+    | [("INNER", .i n)] => some (.obj [("y", .atom (toString (10 + n))),
+        ("q", .obj [("a", .atom (toString (30 + n))), ("b", .atom "\"q\"")])])
+    | _ => none
+  else if k.path == ["TOP", "INNER", "W2"] then
+    match k.forks with
+    | [("INNER", .i n)] => some (.obj [("y", .atom (toString (40 + n))), ("q", .null)])
+    | _ => none
+  else if k.path == ["TOP", "USE"] then some (.obj [("r", .atom "99")])
+  else none
+
+def exDisStore : Store :=
+  storeOfNodes exNm (flattenTList [] (staticProgramT exDis exNm).2) exDisOracle
+
+/-- map calls of RUN-TIME size: a pipeline mapped over the array output of a stage, with a nested map
+call over an array output of a stage of its own fork; consumers above that project through the
+merges -/
+def exRun : Program :=
+  { structs := []
+    callables :=
+      [ ("GEN", .stage [⟨"n", xInt⟩] [⟨"xs", ⟨"int", 0, 1⟩⟩, ⟨"k", xInt⟩]),
+        ("WORK", .stage [⟨"x", xInt⟩, ⟨"k", xInt⟩] [⟨"y", xInt⟩, ⟨"zs", ⟨"int", 0, 1⟩⟩]),
+        ("CONST", .stage [⟨"k", xInt⟩] [⟨"c", xInt⟩]),
+        ("USE", .stage [⟨"ys", ⟨"int", 0, 1⟩⟩, ⟨"cs", ⟨"int", 0, 1⟩⟩, ⟨"yss", ⟨"int", 0, 2⟩⟩] [⟨"r", xInt⟩]),
+        ("INNER", .pipeline [⟨"x", xInt⟩, ⟨"k", xInt⟩] [⟨"y", xInt⟩, ⟨"c", xInt⟩, ⟨"y2", ⟨"int", 0, 1⟩⟩]
+          [ { id := "CONST", callee := "CONST", mapped := false, disabled := none,
+              binds := [⟨"k", false, .self "k" []⟩] },
+            { id := "WORK", callee := "WORK", mapped := false, disabled := none,
+              binds := [⟨"x", false, .self "x" []⟩, ⟨"k", false, .ref "CONST" ["c"]⟩] },
+            { id := "W2", callee := "WORK", mapped := true, disabled := none,
+              binds := [⟨"x", true, .ref "WORK" ["zs"]⟩, ⟨"k", false, .self "x" []⟩] } ]
+          [("y", .ref "WORK" ["y"]), ("c", .ref "CONST" ["c"]), ("y2", .ref "W2" ["y"])]),
+        ("TOP", .pipeline [⟨"v", xInt⟩] [⟨"ys", ⟨"int", 0, 1⟩⟩, ⟨"yss", ⟨"int", 0, 2⟩⟩, ⟨"r", xInt⟩]
+          [ { id := "GEN", callee := "GEN", mapped := false, disabled := none,
+              binds := [⟨"n", false, .self "v" []⟩] },
+            { id := "INNER", callee := "INNER", mapped := true, disabled := none,
+              binds := [⟨"x", true, .ref "GEN" ["xs"]⟩, ⟨"k", false, .ref "GEN" ["k"]⟩] },
+            { id := "USE", callee := "USE", mapped := false, disabled := none,
+              binds := [⟨"ys", false, .ref "INNER" ["y"]⟩, ⟨"cs", false, .ref "INNER" ["c"]⟩,
+                        ⟨"yss", false, .ref "INNER" ["y2"]⟩] } ]
+          [("ys", .ref "INNER" ["y"]), ("yss", .ref "INNER" ["y2"]), ("r", .ref "USE" ["r"])]) ]
+    top := { id := "TOP", callee := "TOP", mapped := false, disabled := none,
+             binds := [⟨"v", false, .lit (.atom "5")⟩] } }
+
+/-- GEN produces three elements; WORK in fork n of INNER produces n + 1 -/
+def exRunOracle : Oracle := fun k =>
+  if k.path == ["TOP", "GEN"] then some (.obj [("xs", .arr [.atom "5", .atom "6", .atom "7"]), ("k", .atom "3")])
+  else if k.path == ["TOP", "INNER", "CONST"] then some (.obj [("c", .atom "4")])
+  else if k.path == ["TOP", "INNER", "WORK"] then
+    match k.forks with
+    | [("INNER", .i n)] => some (.obj [("y", .atom (toString (10 + n))),
+        ("zs", .arr ((List.range (n + 1)).map fun m => .atom (toString (100 * n + m))))])
+    | _ => none
+  else if k.path == ["TOP", "INNER", "W2"] then
+    match k.forks with
+    | [("INNER", .i n), ("W2", .i m)] => some (.obj [("y", .atom (toString (1000 + 10 * n + m))), ("zs", .null)])
+    | _ => none
+  else if k.path == ["TOP", "USE"] then some (.obj [("r", .atom "99")])
+  else none
+
+/-- the index sets the run recorded -/
+def exRunIdx : IdxRec := fun k =>
+  if k.path == ["TOP", "INNER"] then [.i 0, .i 1, .i 2]
+  else if k.path == ["TOP", "INNER", "W2"] then
+    match k.forks with
+    | [("INNER", .i n)] => (List.range (n + 1)).map .i
+    | _ => []
+  else []
+
+def exRunStore : Store :=
+  storeOfRun exNm (flattenTList [] (staticProgramT exRun exNm).2) (subROccList [] (staticProgramT exRun exNm).2)
+    exRunOracle exRunIdx
+
 end Proofs.ResolverStatic
